@@ -32,14 +32,16 @@ CONSTANTS Mode,    \* "small" (exhaustive) | "gen"
 Depths == {2, 4, 8}
 Widths == {2, 100}
 NsSets == {{"n", "m"}, {"n"}, {"m"}}
-Keys   == {"depth", "width", "ns"}
-Values(k) == CASE k = "depth" -> Depths [] k = "width" -> Widths [] OTHER -> NsSets
-Cfg0 == [depth |-> 8, width |-> 100, ns |-> {"n", "m"}]
+\* the content of namespace n: no relations declared, or r and r2 := r2 or r (a computed-subject-set rewrite)
+Contents == {"plain", "rw"}
+Keys   == {"depth", "width", "ns", "content"}
+Values(k) == CASE k = "depth" -> Depths [] k = "width" -> Widths [] k = "content" -> Contents [] OTHER -> NsSets
+Cfg0 == [depth |-> 8, width |-> 100, ns |-> {"n", "m"}, content |-> "plain"]
 
 \* request kinds and the settings their reply depends on
-Reqs == {"check_chain_d0", "check_chain_d3", "check_chain_d6", "check_m", "check_wide", "batch_chain_d0", "batch_chain_d6",
+Reqs == {"check_rw", "check_chain_d0", "check_chain_d3", "check_chain_d6", "check_m", "check_wide", "batch_chain_d0", "batch_chain_d6",
          "expand_d0", "expand_d3", "expand_d6", "grpc_check_chain_d0", "grpc_expand_d0", "list_n", "list_m"}
-Kind(r) == CASE r \in {"check_chain_d0", "check_chain_d3", "check_chain_d6", "check_m", "check_wide", "grpc_check_chain_d0"} -> "check"
+Kind(r) == CASE r \in {"check_rw", "check_chain_d0", "check_chain_d3", "check_chain_d6", "check_m", "check_wide", "grpc_check_chain_d0"} -> "check"
              [] r \in {"batch_chain_d0", "batch_chain_d6"} -> "batch"
              [] r \in {"expand_d0", "expand_d3", "expand_d6", "grpc_expand_d0"} -> "expand"
              [] OTHER -> "list"
@@ -72,7 +74,7 @@ NextGen == /\ steps < NSteps /\ steps' = steps + 1 /\ run' = run
                 IF c = 1 THEN \E k \in Pick(Keys) : \E v \in Pick(Values(k)) : Set(k, v)
                 ELSE \E r \in Pick(Reqs) : Request(r)
            /\ hist' = Append(hist, [op |-> last'.op, req |-> IF last'.op = "req" THEN last'.req ELSE "", key |-> IF last'.op = "set" THEN last'.key ELSE "",
-                                    depth |-> last'.cfg.depth, width |-> last'.cfg.width, ns |-> last'.cfg.ns])
+                                    depth |-> last'.cfg.depth, width |-> last'.cfg.width, ns |-> last'.cfg.ns, content |-> last'.cfg.content])
            /\ (steps' = NSteps => PrintT(ToJson([run |-> run, steps |-> hist'])))
 
 Next == IF Mode = "gen" THEN NextGen ELSE NextSmall
